@@ -120,7 +120,8 @@ def check_cases(chk, cases, profiles, full):
     jobs = []
     for ci, case in enumerate(cases):
         swapped = index[(json.dumps(case['b']), json.dumps(case['a']))]
-        combos = [(p, v) for p in profiles for v in variants] if full else \
+        # thorough: every value profile on the plain call, every strategy variant on two rotating profiles
+        combos = ([(p, {}) for p in profiles] + [(profiles[(ci + k) % len(profiles)], v) for k in (0, 3) for v in variants[1:]]) if full else \
             [(profiles[ci % len(profiles)], {}), (profiles[(ci + 1) % len(profiles)], variants[1 + ci % 3])]
         for pname, variant in combos:
             jobs.append((ci, case, swapped, pname, variant))
